@@ -18,7 +18,7 @@ from asyncchecks import project_async
 from simgen import EINTR, EAGAIN, EPIPE, ECONNRESET, ENOMEM, EMSGSIZE, ENOBUFS, EMFILE, ECONNABORTED, EBADF, POLLIN, POLLOUT, POLLERR, POLLHUP
 
 THEOREMS = ["tcp_constructor_ledger", "udp_constructor_ledger", "acceptor_constructor_ledger", "accept_ledger",
-            "first_failure_is_thrown", "silent_drop_refuted"]
+            "first_failure_is_thrown", "silent_drop_refuted", "ledger_balanced_all_programs", "everything_destroyed_nothing_leaked"]
 
 EACCES, EADDRINUSE, ECONNREFUSED, ENFILE, EINVAL, ENOTCONN, ETIMEDOUT, EIO, ENETUNREACH, EHOSTUNREACH = 13, 98, 111, 23, 22, 107, 110, 5, 101, 113
 
@@ -231,11 +231,13 @@ def generate(rnd, tier):
         tr = traces.get(c.id)
         if tr:
             singles += enumerate_faults(c, tr, rnd, tier)
-    if tier == "quick" and len(singles) > 2600:
+    cap = {"quick": 2600, "search": 2600, "thorough": 12000}[tier]
+    if len(singles) > cap:
+        # every position of the hand-written scenarios is kept; the random walks' positions are sampled
         hand = [c for c in singles if c.meta.get("kind") == "hand"]
         walk = [c for c in singles if c.meta.get("kind") != "hand"]
         rnd.shuffle(walk)
-        singles = hand + walk[:max(0, 2600 - len(hand))]
+        singles = hand + walk[:max(0, cap - len(hand))]
     for c in singles:
         c.meta.pop("blocked", None)
     adaptive.grow(singles, benign, rnd)
